@@ -198,6 +198,30 @@ def rule_overflow_errors(col, facts):
                       "Error::%s is produced when %s fails with is_negative=%s (expected %s with is_negative=%s)" % (v, sorted(failed) if failed else None, neg, sorted(want_ops), v == "Underflow"), f.loc(sp))
 
 
+def rule_empty_after_sign(col, facts):
+    """MPT-empty: `Error::Empty` for "no digit follows the optional sign" can only be produced by an emptiness
+    test made *after* the sign was consumed: some Empty site guarded by is_buffer_empty() / current_count()==0
+    must be dominated by the parse_sign call (a test before it sees the sign byte and lets "+" through)."""
+    R = "MPT-empty"
+    for n in ("algorithm_complete", "algorithm_partial"):
+        f = facts.fn("lexical_parse_integer::algorithm::" + n)
+        ps = [bb for bb, c, a, d, t in f.calls() if last_seg(callee_name(c)) == "parse_sign"]
+        col.check(R, n + ":parse_sign", len(ps) == 1, "parse_sign is called %d times" % len(ps), f.loc())
+        if len(ps) != 1:
+            continue
+        good = []
+        for bb, v, sp in error_sites(f):
+            if v != "Empty" or not f.dominates(ps[0], bb):
+                continue
+            for _d, e, p in path_conditions(f, bb):
+                e = strip_casts(e)
+                names = [last_seg(c[1]) for c in expr_calls(e)]
+                if ("is_buffer_empty" in names or "current_count" in names) and p is True:
+                    good.append(bb)
+        col.check(R, n + ":empty-after-sign", bool(good),
+                  "no Error::Empty site guarded by an emptiness test is dominated by parse_sign: an input consisting of a lone sign is not rejected as Empty", f.loc())
+
+
 def run(col, configs, tier):
     for name, facts in configs.items():
         col.set_config(name)
@@ -211,3 +235,4 @@ def run(col, configs, tier):
             col.floor("GRD-step", "integer parser step sites", n, 4)
         guarded(col, steps, facts)
         guarded(col, DG.rule_digit_decoders, facts)
+        guarded(col, rule_empty_after_sign, facts)
